@@ -50,7 +50,7 @@ static void gen_case(const struct rimpl *im, int vects, int len, int pl, int imp
 {
 	char key[256];
 	int npar = im->op == R_PQ_GEN ? 2 : 1, nsrc = vects - npar;
-	void *arr[VMAX];
+	void **arr = g_alloc((vects > 0 ? vects : 0) * sizeof(void *), G_END); /* exactly `vects` pointers, then an inaccessible page */
 	uint8_t *src[VMAX];
 	for (int i = 0; i < nsrc; i++) {
 		src[i] = place(len, im->align, pl);
@@ -108,7 +108,7 @@ static void check_case(const struct rimpl *im, int vects, int len, int pl, int c
 {
 	char key[256];
 	int npar = im->op == R_PQ_CHECK ? 2 : 1, nsrc = vects - npar;
-	void *arr[VMAX];
+	void **arr = g_alloc((vects > 0 ? vects : 0) * sizeof(void *), G_END); /* exactly `vects` pointers, then an inaccessible page */
 	uint8_t *v[VMAX];
 	for (int i = 0; i < vects; i++) {
 		v[i] = place(len, im->align, pl);
@@ -191,7 +191,7 @@ static void recovery(const struct rimpl *im, int vects, int len)
 {
 	char key[256];
 	int nsrc = vects - 2;
-	void *arr[VMAX];
+	void **arr = g_alloc((vects > 0 ? vects : 0) * sizeof(void *), G_END); /* exactly `vects` pointers, then an inaccessible page */
 	uint8_t *src[VMAX];
 	for (int i = 0; i < nsrc; i++) {
 		src[i] = place(len, im->align, 0);
